@@ -384,6 +384,8 @@ pub fn alphabet(level: usize) -> Vec<Op> {
     a.push(Op::Rename(s("src/a/x.ts"), s("src/ab/x.ts")));
     a.push(Op::Rename(s("src/ab/y.ts"), s("src/a/x.ts")));
     a.push(Op::Rename(s("src/n.txt"), s("src/n.ts")));
+    // a tracked source renamed to a name that is not a source
+    a.push(Op::Rename(s("src/a/x.ts"), s("src/a/x.ts.bak")));
     a.push(Op::Rename(s("src/a/x.ts"), s("out/x.ts")));
     a.push(Op::Rename(s("out/o.ts"), s("src/o.ts")));
     // folders
